@@ -621,9 +621,11 @@ class Interp:
                 st.alias[target.id] = al
             else:
                 st.alias.pop(target.id, None)
-            if vnode is not None and not any(isinstance(x, (ast.Call, ast.Await, ast.Yield, ast.YieldFrom, ast.Lambda,
-                                                              ast.ListComp, ast.GeneratorExp, ast.DictComp, ast.SetComp))
-                                             for x in ast.walk(vnode)) and not isinstance(vnode, (ast.List, ast.Dict, ast.Tuple, ast.Set)) \
+            if vnode is not None and not any(
+                    (isinstance(x, ast.Call) and not (isinstance(x.func, ast.Name) and x.func.id in ('len', 'isinstance', 'callable', 'bool')
+                                                      and not x.keywords))
+                    or isinstance(x, (ast.Await, ast.Yield, ast.YieldFrom, ast.Lambda, ast.ListComp, ast.GeneratorExp, ast.DictComp, ast.SetComp))
+                    for x in ast.walk(vnode)) and not isinstance(vnode, (ast.List, ast.Dict, ast.Tuple, ast.Set)) \
                     and not any(isinstance(x, ast.Name) and x.id == target.id for x in ast.walk(vnode)) \
                     and target.id not in self.shared_locals:
                 st.expr[target.id] = vnode
@@ -889,7 +891,7 @@ class Interp:
         awaited = False
         v = value
         if isinstance(v, (ast.Await, ast.Yield, ast.YieldFrom)) and v.value is not None:
-            awaited = True
+            awaited = 'yieldfrom' if isinstance(v, ast.YieldFrom) else True
             v = v.value
         if not isinstance(v, ast.Call):
             return None
@@ -1026,7 +1028,7 @@ class Interp:
                 if e.kind == 'RETURN' and e.depth == len(self.stack):
                     rt, rs = e.b or frozenset(), (e.x or {}).get('shape', OTHER)
                     break
-            if awaited and callee.is_coro:
+            if awaited and (callee.is_coro or awaited != 'yieldfrom'):
                 # (a plain generator driven by `yield from` suspends only where its own body yields)
                 back.events.append(self._mk(Ev('SUS', call.lineno, src(call), rt, 'spliced',
                                                {'node': call})))
